@@ -639,6 +639,11 @@ def compile(object, return_code=False):
     exec_code = code.to_code(value_to_code)
     exec_code = "\n".join(exec_code)  # Used to run the code
     eval_code = value_to_code(object_expression)  # Used to retrieve the result from the locals_globals dictionary
+    if not isinstance(object, tracer.Graph):
+        # The compiled object is not a function defined by the code (e.g. a graph that was inlined to the function it wraps): name it in the
+        # code, such that the returned source text states what is executed
+        exec_code = exec_code + f"\nop = {eval_code}"
+        eval_code = "op"
 
     locals_globals = {**name_to_constant}
     try:
